@@ -134,22 +134,29 @@ func c02ConfigLineRecorded(c *Ctx, p *Prog) {
 		return
 	}
 	n := 0
-	for _, ci := range callsIn(scan, rp("benchfmt"), "Result", "deleteConfig") {
-		bd := ci.Block()
-		fs := factsAt(bd)
-		if len(fs) == 0 || len(bd.Succs) != 1 {
+	// Scan itself, or a helper of the package it hands the line's key and value to
+	cands := []*ssa.Function{scan}
+	for d := 0; d < 2; d++ {
+		for _, f := range cands {
+			eachInstr(f, func(_ *ssa.BasicBlock, in ssa.Instruction) {
+				if ci, ok := in.(ssa.CallInstruction); ok {
+					if h := ci.Common().StaticCallee(); h != nil && h.Pkg == scan.Pkg && h.Blocks != nil {
+						for _, x := range cands {
+							if x == h {
+								return
+							}
+						}
+						cands = append(cands, h)
+					}
+				}
+			})
+		}
+	}
+	for _, fn := range cands {
+		if fn.Name() == "deleteConfig" || fn.Name() == "ensureConfig" {
 			continue
 		}
-		ifb := fs[0].If.Block()
-		var other *ssa.BasicBlock
-		if fs[0].True {
-			other = ifb.Succs[1]
-		} else {
-			other = ifb.Succs[0]
-		}
-		join := bd.Succs[0]
-		n++
-		ensures := blocksWhere(scan, func(in ssa.Instruction) bool {
+		ensures := blocksWhere(fn, func(in ssa.Instruction) bool {
 			cc, ok := callIs(in, rp("benchfmt"), "Result", "ensureConfig")
 			if !ok {
 				return false
@@ -158,9 +165,37 @@ func c02ConfigLineRecorded(c *Ctx, p *Prog) {
 			k, isK := args[len(args)-1].(*ssa.Const)
 			return isK && k.Value != nil && k.Value.String() == "true"
 		})
-		reach := reachFrom(other, ensures)
-		c.Check(len(ensures) > 0 && !reach[join], R, fmt.Sprintf("Scan:config line#%d", n), p.pos(ci.Pos()), "a line with a value files the key as file configuration on every path",
-			"a configuration line with a value can be passed over without ensureConfig(key, true): a key installed by the tool (Reset's initial configuration, File=false) that the file then states itself stays marked as not from the file, and a writer drops the line")
+		if len(ensures) == 0 {
+			continue
+		}
+		for _, ci := range callsIn(fn, rp("benchfmt"), "Result", "deleteConfig") {
+			bd := ci.Block()
+			fs := factsAt(bd)
+			if len(fs) == 0 {
+				continue
+			}
+			ifb := fs[0].If.Block()
+			var other *ssa.BasicBlock
+			if fs[0].True {
+				other = ifb.Succs[1]
+			} else {
+				other = ifb.Succs[0]
+			}
+			n++
+			reach := reachFrom(other, ensures)
+			bad := false
+			if len(bd.Succs) == 1 {
+				bad = reach[bd.Succs[0]]
+			} else {
+				for b := range reach {
+					if _, isRet := b.Instrs[len(b.Instrs)-1].(*ssa.Return); isRet {
+						bad = true
+					}
+				}
+			}
+			c.Check(!bad, R, fmt.Sprintf("%s:config line#%d", fnName(fn), n), p.pos(ci.Pos()), "a line with a value files the key as file configuration on every path",
+				"a configuration line with a value can be passed over without ensureConfig(key, true): a key installed by the tool (Reset's initial configuration, File=false) that the file then states itself stays marked as not from the file, and a writer drops the line")
+		}
 	}
 	c.Floor(R, "configuration-line sites in Reader.Scan", n, 1)
 }
